@@ -24,6 +24,7 @@ P = "C06"
 COLS = [1, 4, 9, 16, 25]
 ROWS = [1, 3, 6, 10]
 TEXTS = ["", "a", "hello world", "one two three four five six seven", "line1\nline2", "wide 日本語 text", "x" * 40, "tab\there"]
+VALIGN_REQUESTS = ["top", "middle", "bottom", ["relative", 30], ["relative", 100]]
 KEYS = ["up", "down", "left", "right", "a", " ", "enter", "tab", "page down", "page up", "home", "end", "backspace", "delete", "Z"]
 FLOW_LEAVES = ("Text", "Edit", "Button", "CheckBox", "Divider", "ProgressBar", "RadioButton", "SelectableIcon")
 _RADIO_GROUPS: dict = {}  # radio buttons of one tree share groups (reset by every run)
@@ -452,6 +453,12 @@ class _Run:
             w.contents[i] = (new.w, w.contents[i][1])
             n.kids[i] = new
             return "replace"
+        if t == "ListBox" and (op.get("va") is not None or (op.get("sf") is None and m == 10)) and n.kids:
+            # the application asks for the focus item to be aligned (ListBox.set_focus_valign): a request that the next
+            # render resolves - so the next render must not come out of the cache
+            va = VALIGN_REQUESTS[(op.get("va") if op.get("va") is not None else op.get("t", 0)) % len(VALIGN_REQUESTS)]
+            w.set_focus_valign(tuple(va) if isinstance(va, list) else va)
+            return "focus_valign"
         if t == "ListBox" and op.get("sf") is not None:
             # the application scrolls the list itself (ListBox.shift_focus, a documented method)
             w.shift_focus((COLS[op.get("c", 3) % len(COLS)], ROWS[op.get("r", 2) % len(ROWS)]), int(op["sf"]))
@@ -756,6 +763,9 @@ class CacheEngine(Engine):
                 ops.append({"op": "key", "k": KEYS.index(rng.choice(["page down", "page down", "page up", "down", "up", "home", "end"])), "c": c0, "r": r0})
             elif q < 0.85:
                 ops.append({"op": "mutate", "path": [0] if tree["w"] != "ListBox" else [], "m": 0, "t": 0, "i": 0, "sf": rng.choice([-5, -2, -1, 0, 1, 2]), "c": c0, "r": r0})
+                if rng.random() < 0.3:
+                    del ops[-1]["sf"]
+                    ops[-1]["va"] = rng.randrange(len(VALIGN_REQUESTS))
             else:
                 ops.append({"op": "mouse", "x": rng.randrange(9), "y": rng.randrange(10), "c": c0, "r": r0})
             if rng.random() < 0.8:
